@@ -200,6 +200,25 @@ def _group_job(k):
     return {"k": k, "bad": bad, "case": {"ny": ny, "wingbox": wing, "exact": exact, "allowable": sigma}}
 
 
+def _tube_section_job(k):
+    """Section properties of the tube the stresses are recovered with: the closed forms of a circular tube, at every scale
+    (outer radius from 0.1 mm to 10 m): A = pi (r^2 - ri^2), Iy = Iz = pi/4 (r^4 - ri^4), J = pi/2 (r^4 - ri^4)."""
+    from openaerostruct.structures.section_properties_tube import SectionPropertiesTube
+
+    rng = np.random.default_rng(seed() * 163 + k)
+    ny = int(rng.integers(2, 8))
+    r = 10.0 ** rng.uniform(-4, 1, ny - 1)
+    t = r * rng.uniform(0.02, 0.95, ny - 1)
+    ri = r - t
+    out = run_comp(SectionPropertiesTube(surface=_surf(ny)), {"radius": r, "thickness": t}, ["A", "Iy", "Iz", "J"])
+    want = {"A": np.pi * (r**2 - ri**2), "Iy": np.pi / 4 * (r**4 - ri**4), "Iz": np.pi / 4 * (r**4 - ri**4), "J": np.pi / 2 * (r**4 - ri**4)}
+    bad = []
+    for kk, w in want.items():
+        if not (float(np.max(np.abs(out[kk] - w) / w)) <= 1e-11):
+            bad.append("tube_section:%s" % kk)
+    return {"k": k, "bad": bad}
+
+
 def _wingbox_section_job(k):
     """Wingbox section properties: the upper and the lower skin are INDEPENDENT polylines (same number of stations, same spar
     locations).  Describing the same piecewise-linear section with both skins re-sampled on the union of the stations must
@@ -329,6 +348,10 @@ def run(tier, only=None):
         R.case(["group", r["k"]], True, sample=r["case"] if r["k"] % 11 == 0 else None, section="group")
         for sig in r["bad"]:
             R.violation(sig, {"k": r["k"], "case": r["case"]})
+    for r in check_exc(pmap(_tube_section_job, range(24 if tier == "quick" else 240))):
+        R.case(["tube_section", r["k"]], True, section="tube_section")
+        for sig in r["bad"]:
+            R.violation(sig, {"k": r["k"]})
     for r in check_exc(pmap(_wingbox_section_job, range(24 if tier == "quick" else 240))):
         R.case(["wingbox_section", r["k"]], True, section="wingbox_section")
         for sig in r["bad"]:
